@@ -108,6 +108,7 @@ def cases(tier: str, seed: int) -> List[Dict[str, Any]]:
     for name in CONSTRAINED_OPS:
         for u in UNKNOWN:
             out.append({"kind": "unknown", "op": name, "name": u})
+    out.append({"kind": "unknown_history", "fresh": True})
     for n in (1, 2, 3, 4):
         tuples = list(itertools.product(ALPHA7, repeat=n))
         for i in range(0, len(tuples), 343):
@@ -181,6 +182,30 @@ def run_case(case: Dict[str, Any]) -> Dict[str, Any]:
         return {"violations": viol[:4], "steps": n, "n_states": n, "outcome": "rules"}
 
     op = OPS[case["op"]] if "op" in case else None
+    if kind == "unknown_history":
+        # every unknown name is used REPEATEDLY in one (fresh) process, through apply_constraint and through every op:
+        # each use raises ValueError (no name is remembered as valid after its first rejection)
+        from unit_scaling import constraints as C
+
+        n = 0
+        for rep in range(3):
+            for nm in UNKNOWN:
+                calls = [("apply_constraint", lambda nm=nm: C.apply_constraint(nm, 0.5, 0.25))]
+                for opn in CONSTRAINED_OPS:
+                    o_ = OPS[opn]
+                    cfg_ = dict(default_cfg(o_), dtype="float64", constraint=nm)
+                    t_ = o_.make(cfg_, torch.Generator().manual_seed(0))
+                    calls.append((opn, lambda o_=o_, t_=t_, cfg_=cfg_: o_.unit(t_, cfg_)))
+                for where, fn_ in calls:
+                    n += 1
+                    try:
+                        fn_()
+                        viol.append({"key": f"unknown_history|{where}|name_accepted|use={rep + 1}", "msg": f"constraint={nm!r} accepted on use #{rep + 1}"})
+                    except ValueError:
+                        pass
+                    except Exception as e:  # noqa
+                        viol.append({"key": f"unknown_history|{where}|wrong_error|use={rep + 1}", "msg": f"constraint={nm!r}: {type(e).__name__}: {e}"})
+        return {"violations": viol[:4], "steps": n, "nontrivial": True, "outcome": "unknown_history"}
     if kind == "unknown":
         cfg = dict(default_cfg(op), dtype="float64", constraint=case["name"])
         t = op.make(cfg, torch.Generator().manual_seed(0))
